@@ -324,6 +324,32 @@ fn main() {
             });
         }
 
+        // ---- reuse: one record buffer reused across the whole document vs a fresh buffer per record (plain slice)
+        {
+            let docs = &docs;
+            let all: Vec<usize> = (0..docs.len()).collect();
+            let all = &all;
+            ctx.harness(Config::new("reuse", 0), move |ch: &Chooser| -> Outcome {
+                let di = *ch.pick_free("doc", all);
+                let d = &docs[di];
+                let api = *ch.pick_free("api", Api::all_for(d.format));
+                ch.desc(|| format!("doc={} api={api:?} reused vs fresh record buffer", d.name));
+                ch.obs_hash((di, api));
+                match vnd::drive::reuse_check(d.format, &d.bytes, &Opts::for_doc(d).api(api)) {
+                    None => Ok(()),
+                    Some((i, reused, fresh)) => Err(violation(
+                        d,
+                        api,
+                        "plain-slice",
+                        "plain-slice",
+                        "none",
+                        &[],
+                        ("reused-record-buffer-differs".into(), format!("(fresh buffer) item {i}: {}", short(&fresh)), format!("(reused buffer) item {i}: {}", short(&reused))),
+                    )),
+                }
+            });
+        }
+
         // ---- large_reads: the payload of every BGZF-framed document pulled with caller buffers >= 64 KiB (the
         //      reader's direct-to-caller-buffer path), under every adversary; oracle = the payload found by the
         //      independent walker (not the plain-slice run: that path is the same for a slice)
